@@ -140,6 +140,12 @@ public:
     void endDTD() { ev("EDTD"); }
     void startEntity(const XMLCh* const name) { ev("SEnt(" + esc(name) + ")"); }
     void endEntity(const XMLCh* const name) { ev("EEnt(" + esc(name) + ")"); }
+    // DeclHandler (DTD declarations, so that the effect of parameter-entity references is observable)
+    void elementDecl(const XMLCh* const name, const XMLCh* const model) { ev("ED(" + esc(name) + "," + esc(model) + ")"); }
+    void attributeDecl(const XMLCh* const e, const XMLCh* const a, const XMLCh* const type, const XMLCh* const mode, const XMLCh* const value) {
+        ev("AD(" + esc(e) + "," + esc(a) + "," + esc(type) + "," + esc(mode) + "," + esc(value) + ")"); }
+    void internalEntityDecl(const XMLCh* const name, const XMLCh* const value) { ev("IED(" + esc(name) + "," + esc(value) + ")"); }
+    void externalEntityDecl(const XMLCh* const name, const XMLCh* const, const XMLCh* const sys) { ev("XED(" + esc(name) + "," + esc(sys) + ")"); }
     void startPrefixMapping(const XMLCh* const p, const XMLCh* const u) { ev("PM(" + esc(p) + "," + esc(u) + ")"); }
     void endPrefixMapping(const XMLCh* const p) { ev("EPM(" + esc(p) + ")"); }
     void rep(const char* sev, const SAXParseException& e) {
